@@ -21,7 +21,7 @@ Global Hint Extern 0 (cln ?s) => (is_lit s; reflexivity) : cln.
 Global Hint Extern 0 (cln _) => assumption : cln.
 Global Hint Extern 0 (cln _) => (simple apply @triv_cln; solve [typeclasses eauto]) : cln.
 Global Hint Extern 0 (bad_char _ = false) => reflexivity : cln.
-Global Hint Resolve cln_mc_char : cln.
+Global Hint Resolve cln_mc_char cln_cap_user : cln.
 Global Hint Resolve cln_empty cln_String cln_app cln_srev cln_stake cln_sdrop cln_to_upper cln_trim_space cln_dec_of_N
   cln_dec_of_Z cln_dec_of_nat cln_hex_of_N cln_replace_all cln_nil cln_cons cln_lapp cln_split_on cln_split_space
   cln_sjoin cln_sort_strings cln_dedup_sorted cln_last cln_removelast cln_nth cln_nth_error cln_hd cln_tl cln_lfilter
